@@ -19,7 +19,7 @@ const (
 
 func init() {
 	Registry["C16"] = Spec{
-		Pkgs: map[string][]string{"v2": {"resolve", "caching", "cachectl"}},
+		Pkgs: map[string][]string{"v2": {"resolve", "caching", "cachectl", "httpclient"}},
 		Run:  runC16,
 		Thorough: func(r *fw.Run) {
 			workspaceWhoMayCall(r, []wsCallRule{
@@ -32,6 +32,10 @@ func init() {
 			"errors of the cache store flow only into the error reporter and the store is never called with the data lock held; both cache keys combine the entity hash with the selection hash taken before the input buffer is rewritten; " +
 			"every Cache-Control field the decision reads is filled by the arm of the directive switch for the RFC 9111 directive of that name. It does not decide transparency over request histories nor the Cache-Control lexer over all strings.",
 		Mutants: []Mutant{
+			{Name: "cache error callback called without a nil test (seeded change C16-22)", File: respCacheGo, Rule: "C16-R7", Key: "reportResponseCacheError/optional-callback-nil-checked:onError",
+				Old: "\tif l.responseCacheEnabled() && l.ctx.responseCache.onError != nil {\n\t\tl.ctx.responseCache.onError(err)\n\t}\n", New: "\tif !l.responseCacheEnabled() {\n\t\treturn\n\t}\n\tl.ctx.responseCache.onError(err)\n"},
+			{Name: "single-flight follower no longer restores the shared status code (seeded change C16-23)", File: "v2/pkg/engine/resolve/loader.go", Rule: "C16-R8", Key: "follower-mirrors:StatusCode<-item.statusCode",
+				Old: "\t\t\trc.StatusCode = item.statusCode\n", New: ""},
 			{Name: "undefined variables no longer part of the selection hash (the repaired defect F15)", File: loaderGo, Rule: "C16-R5", Key: "prepareEntityFetch/hash<-undefined-variables",
 				Old: "\t\t\trendered[responseCacheFooterStart:],\n\t\t\tundefinedVariables,\n\t\t)\n\t\tresponseCacheItemHash :=", New: "\t\t\trendered[responseCacheFooterStart:],\n\t\t\tnil,\n\t\t)\n\t\tresponseCacheItemHash :="},
 			{Name: "non-positive default TTL replaced by one minute (seeded change C16-13)", File: "v2/pkg/engine/resolve/context.go", Rule: "C16-R1", Key: "SetResponseCache/default-ttl-is-the-configured-value",
@@ -68,6 +72,8 @@ func init() {
 func runC16(r *fw.Run) {
 	p := r.Prog
 	defer c16DefaultTTLUnchanged(r)
+	defer c16OptionalCallbacksNilChecked(r)
+	defer c16FollowerMirrorsLeader(r)
 	// ---- R1 storability decision --------------------------------------------------------------
 	r.Rule("C16-R1", "caching.TTL returns ok only when the header parsed ∧ !no-store ∧ no-cache absent ∧ private absent ∧ public, and the duration is s-maxage, else max-age, else the default, each tested > 0")
 	if fi := p.Func("caching", "TTL"); fi == nil {
@@ -861,4 +867,205 @@ func c16DefaultTTLUnchanged(r *fw.Run) {
 		})
 	}
 	r.Expect("C16-R1", "stores into responseCache.defaultTTL", n, 1)
+}
+
+// c16OptionalCallbacksNilChecked (R7): "cache failures never fail a request". The error callback of the response cache is
+// optional: SetResponseCache stores its parameter as given, nil included. A func-typed field that is filled directly from
+// a parameter of an exported function (no nil default on that path) may be nil, so every call of it has to be dominated
+// by a non-nil test of the same field. An unguarded call turns the first GetMany/SetMany error of a cache that was
+// attached without a callback into a nil-function panic in the middle of a request.
+func c16OptionalCallbacksNilChecked(r *fw.Run) {
+	p := r.Prog
+	r.Rule("C16-R7", "the response cache's optional callbacks (func-typed fields of the cache settings filled directly from a parameter of an exported function) are called only under a non-nil test of that field")
+	// fields of the response-cache settings struct that are func-typed and assigned from a parameter
+	optional := map[*types.Var]string{}
+	for _, fi := range p.Funcs("resolve") {
+		if !fi.Obj.Exported() {
+			continue
+		}
+		info := fi.Info()
+		sig := fi.Obj.Type().(*types.Signature)
+		params := map[types.Object]bool{}
+		for i := 0; i < sig.Params().Len(); i++ {
+			if _, isFn := sig.Params().At(i).Type().Underlying().(*types.Signature); isFn {
+				params[sig.Params().At(i)] = true
+			}
+		}
+		if len(params) == 0 {
+			continue
+		}
+		note := func(field *types.Var, val ast.Expr) {
+			if field == nil {
+				return
+			}
+			if _, isFn := field.Type().Underlying().(*types.Signature); !isFn {
+				return
+			}
+			if id, ok := ast.Unparen(val).(*ast.Ident); ok && params[info.Uses[id]] {
+				optional[field] = fi.Name()
+			}
+		}
+		fw.WalkAll(fi.Decl.Body, func(nd ast.Node) bool {
+			switch x := nd.(type) {
+			case *ast.AssignStmt:
+				if len(x.Lhs) == len(x.Rhs) {
+					for i, l := range x.Lhs {
+						fv, _ := fw.Field(info, l)
+						note(fv, x.Rhs[i])
+					}
+				}
+			case *ast.CompositeLit:
+				for _, el := range x.Elts {
+					if kv, ok := el.(*ast.KeyValueExpr); ok {
+						if id, isID := kv.Key.(*ast.Ident); isID {
+							if fv, isVar := info.Uses[id].(*types.Var); isVar && fv.IsField() {
+								note(fv, kv.Value)
+							}
+						}
+					}
+				}
+			}
+			return true
+		})
+	}
+	nFields, nCalls := 0, 0
+	for fv := range optional {
+		if strings.Contains(strings.ToLower(fv.Name()), "error") || true {
+			nFields++
+		}
+	}
+	for _, fi := range p.Funcs("resolve") {
+		info := fi.Info()
+		ord := 0
+		in := fw.NewInterp(fi)
+		in.H = fw.Hooks{
+			Cond: func(e ast.Expr, branch bool, st *fw.State) {
+				a := fw.Atom(info, e, branch)
+				if a.Kind == "NonNil" {
+					if fv, _ := fw.Field(info, a.X); fv != nil && optional[fv] != "" {
+						st.Set("nonnil:" + fw.ExprKey(info, a.X))
+					}
+				}
+			},
+			Node: func(nd ast.Node, st *fw.State) {
+				c, ok := nd.(*ast.CallExpr)
+				if !ok || !in.Final() {
+					return
+				}
+				fv, _ := fw.Field(info, c.Fun)
+				if fv == nil || optional[fv] == "" {
+					return
+				}
+				nCalls++
+				ord++
+				r.Check(st.Must("nonnil:"+fw.ExprKey(info, c.Fun)), "C16-R7", fi.Name()+"/optional-callback-nil-checked:"+fv.Name()+"#"+itoa(ord), p.Pos(c.Pos()), "the call of "+fv.Name()+" (set from a parameter of "+optional[fv]+", may be nil) in "+fi.Name()+" is dominated by a non-nil test",
+					"the callback is called without a nil test although "+optional[fv]+" stores whatever it is given: with a nil callback the first error to report panics with a nil function call in the middle of a request — a cache failure fails the request")
+			},
+		}
+		in.Run(nil)
+		for _, lit := range in.SkippedLits {
+			in2 := fw.NewInterp(fi)
+			in2.H = in.H
+			in2.RunLit(lit, nil)
+		}
+	}
+	r.Expect("C16-R7", "calls of optional callbacks", nCalls, 1)
+}
+
+
+// c16FollowerMirrorsLeader (R8): "stored only from a successful response" is decided from the status code in the
+// ResponseContext of the request at hand. A single-flight follower makes no HTTP call: it must rebuild its ResponseContext
+// from what the leader recorded in the shared item. The leader's copy (item.f = … rc.g …) and the follower's copy
+// (rc.g = … item.f …) have to mirror each other: for every pair the leader copies directly under its `rc != nil` test, the
+// follower assigns rc.g from item.f directly under its own `rc != nil` test. A follower that forgets the status code
+// judges a shared 500 response by the zero value and stores its entities, while the leader refuses them.
+func c16FollowerMirrorsLeader(r *fw.Run) {
+	p := r.Prog
+	r.Rule("C16-R8", "in Loader.loadByContext the single-flight follower rebuilds its ResponseContext from the shared item as the mirror image of what the leader recorded: every ResponseContext field the leader copies into the item directly under rc != nil is assigned back from that item field directly under the follower's rc != nil")
+	fi := p.Func("resolve", "Loader.loadByContext")
+	if fi == nil {
+		r.Error("C16-R8: Loader.loadByContext not found")
+		return
+	}
+	info := fi.Info()
+	isRC := func(t types.Type) bool { return fw.TypeIs(derefT(t), "httpclient", "ResponseContext") }
+	isItem := func(t types.Type) bool { return fw.TypeIs(derefT(t), "resolve", "SingleFlightItem") }
+	fieldOf := func(e ast.Expr, owner func(types.Type) bool) string { // first field of owner selected anywhere in e
+		out := ""
+		fw.WalkAll(e, func(n ast.Node) bool {
+			if sel, ok := n.(*ast.SelectorExpr); ok && out == "" {
+				if tv, okT := info.Types[sel.X]; okT && owner(tv.Type) {
+					out = sel.Sel.Name
+				}
+			}
+			return true
+		})
+		return out
+	}
+	// innermost enclosing if of each assignment, and whether its condition is exactly "rc != nil"
+	type pair struct{ item, rc string }
+	leader, follower := map[pair]ast.Node{}, map[pair]bool{}
+	var visit func(n ast.Node, directlyUnderRC bool)
+	visit = func(n ast.Node, directlyUnderRC bool) {
+		ast.Inspect(n, func(m ast.Node) bool {
+			switch x := m.(type) {
+			case *ast.IfStmt:
+				if x == n {
+					return true
+				}
+				a := fw.Atom(info, x.Cond, true)
+				under := false
+				if a.Kind == "NonNil" {
+					if tv, ok := info.Types[a.X]; ok && isRC(tv.Type) {
+						under = true
+					}
+				}
+				if x.Init != nil {
+					visit(x.Init, directlyUnderRC)
+				}
+				visit(x.Body, under)
+				if x.Else != nil {
+					visit(x.Else, false)
+				}
+				return false
+			case *ast.AssignStmt:
+				if !directlyUnderRC || len(x.Lhs) != 1 || len(x.Rhs) != 1 {
+					return true
+				}
+				if tv, ok := info.Types[selX(x.Lhs[0])]; ok && isItem(tv.Type) {
+					if g := fieldOf(x.Rhs[0], isRC); g != "" {
+						leader[pair{selName(x.Lhs[0]), g}] = x
+					}
+				}
+				if tv, ok := info.Types[selX(x.Lhs[0])]; ok && isRC(tv.Type) {
+					if f := fieldOf(x.Rhs[0], isItem); f != "" {
+						follower[pair{f, selName(x.Lhs[0])}] = true
+					}
+				}
+			}
+			return true
+		})
+	}
+	visit(fi.Decl.Body, false)
+	n := 0
+	for pr, at := range leader {
+		n++
+		r.Check(follower[pr], "C16-R8", "Loader.loadByContext/follower-mirrors:"+pr.rc+"<-item."+pr.item, p.Pos(at.Pos()), "the follower assigns ResponseContext."+pr.rc+" from item."+pr.item+" directly under its rc != nil test (the leader records item."+pr.item+" from ResponseContext."+pr.rc+")",
+			"the follower's ResponseContext."+pr.rc+" keeps its zero value although the leader recorded it: executeSourceLoad then judges the shared response by status 0 — a follower stores the entities of a shared 500 response in the response cache (and reports the wrong status), while the leader refuses them")
+	}
+	r.Expect("C16-R8", "ResponseContext fields the leader records directly under rc != nil", n, 1)
+}
+
+func selX(e ast.Expr) ast.Expr {
+	if s, ok := ast.Unparen(e).(*ast.SelectorExpr); ok {
+		return s.X
+	}
+	return e
+}
+
+func selName(e ast.Expr) string {
+	if s, ok := ast.Unparen(e).(*ast.SelectorExpr); ok {
+		return s.Sel.Name
+	}
+	return ""
 }
